@@ -249,6 +249,8 @@ class Transform(Contract):
              predict with dt = 0.1 and controls X[i, :k], then updates in sensor KEY order with the readings' own column blocks;
              every value non-negative;  frame: only self.model_ is written."""
 
+    assignable = ('model_',)  # frame: transform stores the compiled filter in model_ and nothing else
+
     key = "formak.python:SklearnEKFAdapter.transform"
     prefix = "C16.py.transform"
     inline = ("formak.python:force_to_ndarray",)
